@@ -159,7 +159,7 @@ fn run<R: Round, const B: Word>(op: &str, args: &[&str]) -> Res {
         }
         "f.powi" => {
             let fa = p_farg(arg(args, 0)?)?;
-            let n = p_ibig(arg(args, 1)?)?;
+            let n = p_ibig(arg(args, 1)?.trim_start_matches("k:"))?;
             let ctx = Context::<R>::new(fa.prec);
             let a = mk(&fa);
             let n2 = n.clone();
@@ -168,7 +168,7 @@ fn run<R: Round, const B: Word>(op: &str, args: &[&str]) -> Res {
         }
         "c.powi" => {
             let fa = p_farg(arg(args, 0)?)?;
-            let n = p_ibig(arg(args, 1)?)?;
+            let n = p_ibig(arg(args, 1)?.trim_start_matches("k:"))?;
             let p = p_usize(arg(args, 2)?)?;
             Ok(fr(&Context::<R>::new(p).powi(&mkr(&fa), n)))
         }
